@@ -103,6 +103,15 @@ def chain(ctx, key, tag):
     o = ctx.ob("%s.flow-07-reassign-end-depots" % tag, "T4", key,
                "end depots are aligned on the schedule that carries the optimised cycles")
     exists_call_with(ctx, fd, o, REASSIGN, 0, SETT)
+    o = ctx.ob("%s.flow-07b-alignment-unconditional" % tag, "T1", key, "the end-depot alignment runs on every path of the pipeline (it is not skipped under a condition)")
+    rc = calls_to(fd, REASSIGN)
+    if len(rc) != 1:
+        ctx.bad(o, "expected one call of reassign_end_depots_consistent_with_transitions, found %d" % len(rc))
+    else:
+        cs = controlling_sources(fd, rc[0])
+        ctx.decide(o, not cs, "no condition controls the call", "the alignment is only performed under a condition (%s at %s): instances taking the "
+                   "other branch are answered with end depots that do not match the reported cycles" % (
+                       (cs[0][1] or "a test").split("::")[-1], cs[0][0].line()) if cs else "", loc=rc[0].line())
     o = ctx.ob("%s.flow-08-final-info" % tag, "T4", key, "the aligned schedule is wrapped as final schedule")
     exists_call_with(ctx, fd, o, SWI_NEW, 0, REASSIGN)
     o = ctx.ob("%s.flow-09-final-evaluate" % tag, "T4", key, "the final schedule is evaluated")
